@@ -67,9 +67,12 @@ Fixpoint scan (es : list entry) (ssid : list N) (from until : Z) (limit : N) (ac
     if negb (id_has_prefix id ssid from) || negb (len acc <? limit) then rev acc
     else if negb (id_match id ssid from until) then scan r ssid from until limit acc size
     else
-      let size' := size + len (m_payload (e_msg e)) + len id + len (m_chan (e_msg e)) in
-      if maxMessageSize <? size' then rev acc
-      else scan r ssid from until limit (e_msg e :: acc) size'
+      let own := len (m_payload (e_msg e)) + len id + len (m_chan (e_msg e)) in
+      if maxMessageSize <? own then scan r ssid from until limit acc size   (* can be in no answer: skipped *)
+      else
+        let size' := size + own in
+        if maxMessageSize <? size' then rev acc
+        else scan r ssid from until limit (e_msg e :: acc) size'
   end.
 
 (* Seek(k): the entries with key >= k *)
